@@ -341,7 +341,34 @@ def r08_3(ctx, rid="R08.3"):
         r.ob("anchoring:node:empty-prefix", rows.get(1, {}).get("regex") == ("const", ".*"), g.site, "empty prefix -> `.*`")
         for k in (0, 1):
             r.ob("anchoring:node:original:%d" % k, rows.get(k, {}).get("original") == ("param", 1), g.site, "node original = prefix")
-    ctx.run_rule(rid, "anchoring constants of leaf and node regexes", body, floor=7)
+        # ... and each kind of item holds its own kind of regex: a Leaf built anywhere in the tree gets a regex
+        # made by new_leaf (or the regex of the leaf it is rebuilt from), a Node one made by new_node — a leaf
+        # sharing a node's regex is anchored at the start only
+        k = 0
+        for f2 in F.fn_list:
+            if f2.derived or not f2.file.startswith("src/regex_radix_tree/") or f2.trait == "std::clone::Clone":
+                continue
+            seen = set()
+            for p in Sym(f2, copies=True).paths():
+                vals = [p.end[1]] if p.end[0] == "ret" else []
+                vals += [e[3] for e in p.events if e[0] in ("set", "init")] + [a for e in p.events if e[0] == "call" for a in e[2]]
+                for v in vals:
+                    for x in walk(v):
+                        if x[0] != "agg" or x[1] not in (LEAF, NODE) or x in seen:
+                            continue
+                        seen.add(x)
+                        rx = dict(x[3]).get("regex")
+                        if rx is None:
+                            continue
+                        k += 1
+                        want, other = ("new_leaf", "new_node") if x[1] == LEAF else ("new_node", "new_leaf")
+                        made = mentions(rx, lambda y: y[0] == "call" and y[1] == LAZY + "::" + want)
+                        wrong = mentions(rx, lambda y: y[0] == "call" and y[1] == LAZY + "::" + other)
+                        kept = mentions(rx, lambda y: y[0] == "field" and y[2] == "regex" and len(y) > 3 and y[3] == x[1])
+                        r.ob("anchoring:%s:%s-gets-its-own-kind" % (f2.key.rsplit("::", 2)[-2] + "::" + f2.name, x[1].rsplit("::", 1)[1]), (made or kept) and not wrong, f2.site,
+                             "a %s is built with %s" % (x[1].rsplit("::", 1)[1], show(rx, f2)[:100]))
+        r.ob("anchoring:constructions", k >= 4, "", "%d Leaf / Node constructions inspected" % k)
+    ctx.run_rule(rid, "anchoring constants of leaf and node regexes", body, floor=11)
 
 
 def r08_4(ctx):
